@@ -364,12 +364,12 @@ def notifiesAlways : Bool := Extracted.chanRecvNotifiesAfterEveryPop
 
 /-- **channel_protocol_shape** — what M-CHAN takes from the source, read on every run: the predicates of the two waits,
 the unconditional `notify_one` after the popped message is dropped and before the handler is awaited, the receiver
-notification after a successful push, the types of the two signals, and the versions of the two signalling crates
+notification after a successful push, the types of the two signals, `Receiver::drop` (close, then `notify_all`), and the versions of the two signalling crates
 whose protocol M-CHAN models from their source. -/
 theorem channel_protocol_shape :
     Extracted.chanRecvWaitsOnPop = true ∧ Extracted.chanRecvNotifiesAfterEveryPop = true ∧
     Extracted.chanSendWaitsOnPush = true ∧ Extracted.chanSendNotifiesReceiver = true ∧
-    Extracted.chanSignalTypes = true ∧
+    Extracted.chanSignalTypes = true ∧ Extracted.chanReceiverDropClosesThenNotifiesAll = true ∧
     Extracted.chanSignalCrates = ["async-event 0.2.1", "diatomic-waker 0.2.3"] := by decide
 
 /-- **no_sender_or_receiver_sleeps_through_a_wakeup** — for any number of senders and every interleaving: in every
@@ -383,22 +383,24 @@ theorem no_sender_or_receiver_sleeps_through_a_wakeup {n cap : Nat} {s : St} (hr
   exact no_lost_wakeup hr hq
 
 /-- **a_wakeup_is_always_on_its_way** — in *every* reachable state: while a sender sleeps and a slot is free, the
-receiver is about to notify or some sender outside the wait set is about to look at the queue again (or to pass its
-notification on) — and that sender has a step; while the receiver sleeps and a message is queued, the sender that
+receiver is about to notify, or the thread that closed the mailbox is about to `notify_all`, or some sender outside the
+wait set is about to look at the queue again (or to pass its notification on) — and that sender has a step; while the receiver sleeps and a message is queued, the sender that
 pushed it is about to notify the receiver. -/
 theorem a_wakeup_is_always_on_its_way {n cap : Nat} {s : St} (hr : Reach n cap notifiesAlways s) :
     ((∃ i, Sleeping s i) → s.occ < s.cap →
-      s.rpc = .notify ∨ ∃ j, j < s.n ∧ s.inset j = false ∧
-        (s.spc j = .rm ∨ s.spc j = .try1 ∨ s.spc j = .try2 ∨ s.spc j = .cancel ∨ s.spc j = .pending) ∧
+      s.rpc = .notify ∨ s.cpc = true ∨ ∃ j, j < s.n ∧ s.inset j = false ∧
+        (s.spc j = .rm ∨ s.spc j = .try1 ∨ s.spc j = .try2 ∨ s.spc j = .cancel ∨ s.spc j = .pending ∨
+          s.spc j = .cancelErr) ∧
         ∃ l, (step l s).isSome = true) ∧
     (RSleeping s → 0 < s.msgs → ∃ j, j < s.n ∧ (s.spc j = .cancel ∨ s.spc j = .notifyRecv)) := by
   have : notifiesAlways = true := by decide
   rw [this] at hr
   have h := wakeup_in_flight hr
   refine ⟨fun hsl hroom => ?_, h.2⟩
-  rcases h.1 hsl hroom with e | ⟨j, hj, hb, hp⟩
+  rcases h.1 hsl hroom with e | e | ⟨j, hj, hb, hp⟩
   · exact Or.inl e
-  · exact Or.inr ⟨j, hj, hb, hp, holder_can_move j hj hb hp⟩
+  · exact Or.inr (Or.inl e)
+  · exact Or.inr (Or.inr ⟨j, hj, hb, hp, holder_can_move j hj hb hp⟩)
 
 /-- **mailbox_counters_stay_consistent** — never more occupied slots than the capacity, and the poppable messages
 plus the one the receiver may be holding never exceed the occupied slots. -/
@@ -416,6 +418,23 @@ theorem notifying_only_when_leaving_full_loses_a_wakeup :
       (fun s => (quiescentB s, s.spc 3 == .pending && s.inset 3, s.occ, s.cap)) = some (true, true, 1, 2) :=
   notify_only_when_leaving_full_loses_a_wakeup
 
+/-- **closing_the_mailbox_wakes_every_sender** — the owner of a mailbox may drop it while the receiver is not receiving
+(`Receiver::drop`: close the queue, then `notify_all`).  Once both have happened no sender sleeps any more — a sender
+that looks at the queue finds it closed and its send fails — and when nothing is in progress every send has returned. -/
+theorem closing_the_mailbox_wakes_every_sender {n cap : Nat} {s : St} (hr : Reach n cap notifiesAlways s)
+    (hcl : s.closed = true) (hcp : s.cpc = false) :
+    (∀ i, ¬ Sleeping s i) ∧ (Quiescent s → ∀ i, i < s.n → s.spc i = .idle) := by
+  have : notifiesAlways = true := by decide
+  rw [this] at hr
+  exact closing_wakes_every_sender hr hcl hcp
+
+-- non-vacuity: two senders asleep on a full mailbox of capacity 1; the mailbox is dropped; both wake up and fail
+example : (runLabels [.sBegin 0, .sTry1 0, .sNotify 0, .sBegin 1, .sTry1 1, .sInsert 1, .sTry2 1, .sBegin 2, .sTry1 2,
+      .sInsert 2, .sTry2 2, .closeQ, .closeNotify, .sRepoll 1, .sRemove 1, .sTry1Closed 1, .sRepoll 2, .sRemove 2,
+      .sTry1Closed 2] (St.init 3 1 true)).map
+    (fun s => (s.closed, quiescentB s, s.spc 1 == .idle, s.spc 2 == .idle, s.occ)) = some (true, true, true, true, 1) := by
+  decide
+
 -- non-vacuity: a reachable state with nothing in progress and a sender asleep (the mailbox is full)
 example : ∃ s, Reach 2 1 true s ∧ Quiescent s ∧ Sleeping s 1 ∧ s.occ = s.cap := by
   let ls : List Label := [.sBegin 0, .sTry1 0, .sNotify 0, .sBegin 1, .sTry1 1, .sInsert 1, .sTry2 1]
@@ -430,7 +449,7 @@ example : ∃ s, Reach 2 1 true s ∧ Quiescent s ∧ Sleeping s 1 ∧ s.occ = s
     obtain ⟨hq, hsl, ho, hc, hn⟩ := key
     refine ⟨s, runLabels_reach _ _ _ Reach.init hrun, ?_, ?_, by omega⟩
     · simp only [quiescentB, Bool.and_eq_true, List.all_eq_true, List.mem_range, Bool.or_eq_true, beq_iff_eq] at hq
-      exact ⟨fun i hi => by simpa using hq.1 i hi, by simpa using hq.2⟩
+      exact ⟨fun i hi => by simpa using hq.1.1 i hi, by simpa using hq.1.2, by simpa using hq.2⟩
     · simp only [Bool.and_eq_true, beq_iff_eq] at hsl
       exact ⟨by omega, hsl.1, hsl.2⟩
 
